@@ -525,7 +525,9 @@ func (g *Gen) applyContract(f *Frame, c *Contract, names []string, args []Arg, s
 			if cs.Target != "" && !strings.HasSuffix(c.Key, "."+cs.Target) {
 				continue
 			}
+			g.callArgs = args
 			g.oblige(fmt.Sprintf("rec#%d@%s", cs.Idx, sanitize(insName(ins))), "pre", f.en, g.clause(f, cs, f.st, nil), "at the recursive call: "+cs.Text, ins.Pos())
+			g.callArgs = nil
 		}
 	}
 	if c.ModAll {
